@@ -42,9 +42,26 @@ def run(tier):
              'LAYER\n NAME "x"\n MINSCALEDENOM 0\n TEMPLATE ""\n TYPE POINT\nEND']
     for j, text in enumerate(roots):
         docs_.append(("root:%d" % j, text, loads_p(text)))
+    # every scalar keyword as the first simple keyword BEHIND a block-valued item of its object (spec/SlotProbe.tla, position
+    # "aftercomplex"): the alignment column of the object must not be disturbed by the nested block before it
+    concs = concretise.Concretiser(seed, avoid_quote="\"'")
+    nac = 0
+    for i, h in enumerate(_docs.slots(ck=ck, tag="c16slots", with_complex=True)):
+        info = h[-1]["info"]
+        if info["pos"] != "aftercomplex" or (quick and (i + seed) % 3):
+            continue
+        text, _ = concretise.assemble(concs.tokens(concretise.with_root(h, _docs.root_type(h))))
+        try:
+            docs_.append(("slotc:%d" % i, text, loads_p(text)))
+            nac += 1
+        except Exception:  # noqa: BLE001
+            continue
+    aligned = [o for o in sets if o["align_values"] and not o["separate_complex_types"] and o["nl"] != "SP" and o["indent"] in (2, 4)]
     for di, (tid, text, d) in enumerate(docs_):
         is_corpus = tid.startswith("corpus")
         use = cover if (quick or is_corpus or tid.startswith("commented")) else sets
+        if tid.startswith("slotc:"):
+            use = [aligned[(di + k) % len(aligned)] for k in range(1 if quick else 3)]
         for oi, o in enumerate(use):
             if o["nl"] == "SP":
                 continue                      # the per-line rules need line breaks
